@@ -26,6 +26,7 @@ func c01Judge(w *fw.W, c *c01Case, reps int) bool {
 	if exp.Ambiguous != "" {
 		w.Count("ambiguous_skipped", 1)
 		w.Cover("ambiguous_reasons", exp.Ambiguous)
+		w.Count("ambiguous: "+exp.Ambiguous, 1)
 		return false
 	}
 	for i := 0; i < reps; i++ {
